@@ -125,7 +125,7 @@ def run(ctx):
         quick = ctx.tier == "quick"
         inputs, done = explore(ctx, 4 if quick else 6, 3 if quick else 60)
         if done:
-            s, g, tr = done[1]
+            s, g, tr = done[min(1, len(done) - 1)]
             ctx.sample({"faults": {"search": {"%s/%s" % k: v for k, v in s.items()}, "graph": g},
                         "row0": {k: tr["out"][0].get(k) for k in ("solved", "issue")} if tr["out"] else None})
     return ctx.finish(search)
